@@ -501,6 +501,11 @@ def basenameLiteral (g : Glob) : Option (List Nat) :=
   | none => none
   | some toks => allLits toks
 
+/-- the order in which `MatchStrategy::new` asks the recognisers (source names; anchored to the source by
+`checks/C12.json` → `constants`; `strategyOf` below asks in this order) -/
+def recogniserOrder : List String :=
+  ["basename_literal", "literal", "ext", "prefix", "suffix", "required_ext"]
+
 /-- `MatchStrategy::new` -/
 def strategyOf (g : Glob) : Strat :=
   match basenameLiteral g with
